@@ -139,6 +139,14 @@ Theorem C13_session_history_independent : forall (R : cring) (eqb : R -> R -> bo
   ps_upol s = upol_of R cur -> prun eqb s h = pspec eqb cur h.
 Proof. exact session_history_independent. Qed.
 Print Assumptions C13_session_history_independent.
+(* Processor(backend, circuit): over any configuration history every probs() uses the circuit as it is then and
+   the polarised input given last; noise assignments, filters and added components after the input included *)
+Theorem C13_processor_history : forall (R : cring) (eqb : R -> R -> bool) (h : list (cop R)) (s : pproc R) cur,
+  pinv R s cur -> crun eqb s h = cspec eqb (pp_m s) (pp_items s) cur (pp_filter s) h.
+Proof. exact processor_history. Qed.
+Print Assumptions C13_processor_history.
+Example C13_processor_history_sat : forall m items, pinv QI (mkpproc m items None None None None) None.
+Proof. intros. repeat split. left. reflexivity. Qed.
 (* the executed list of amplitudes is that function on every output *)
 Theorem C13_executed_amplitudes : forall (R : cring) (eqb : R -> R -> bool) (U : mat R) m (inp : pinput R) ts,
   impl_amps eqb U m inp ts = map (impl_amp eqb U m inp) ts.
